@@ -46,6 +46,9 @@ var propC05 = &pProp{
 					if r.chance(1, 3) {
 						o.InitState = append(o.InitState, [2]string{"m0", "M:q1"})
 					}
+					if r.chance(1, 4) {
+						o.InitState = append(o.InitState, [2]string{"c2", "CNIL"}) // "nothing open yet": a nil pointer of a Cloner type
+					}
 				}
 				plan := drawPlan(r, true)
 				plan.MisbehavePct = []int{0, 25, 60}[r.intn(3)]
